@@ -11,6 +11,7 @@ import (
 	"fmt"
 	"net"
 	"net/url"
+	"strconv"
 	"strings"
 )
 
@@ -119,12 +120,20 @@ func parseProxy(s string) (Proxy, error) {
 	if !ok {
 		return noProxy, errors.New("missing host:port")
 	}
+	m := parseMode(mode)
+	if m == DIRECT {
+		// DIRECT takes no host:port, anything else is not a proxy type.
+		return noProxy, fmt.Errorf("unsupported proxy type %q", mode)
+	}
 	host, port, err := net.SplitHostPort(hostport)
 	if err != nil {
 		return noProxy, fmt.Errorf("split host:port: %w", err)
 	}
+	if _, err := strconv.ParseUint(port, 10, 16); err != nil {
+		return noProxy, fmt.Errorf("invalid port %q", port)
+	}
 	return Proxy{
-		Mode: parseMode(mode),
+		Mode: m,
 		Host: host,
 		Port: port,
 	}, nil
